@@ -110,6 +110,11 @@ def _enumerate_extras():
                 out.append({'proc': p, 'names': names, 'sel': sel, 'regex': False})
             for p in ('delete_resource', 'concatenate', 'filter_rows', 'deduplicate'):
                 out.append({'proc': p, 'names': names, 'sel': sel, 'seq_iters': True})
+    for names in FIXED_PACKAGES[1:4]:
+        for sel in selector_forms(names):
+            for p in PROCS:
+                if p not in ('load_package', 'load_tuple', 'parallelize'):
+                    out.append({'proc': p, 'names': names, 'sel': sel, 'upstream_drop': True})
     for names in FIXED_PACKAGES[:3]:
         dup_names = [names[0], names[0] + '_copy'] + list(names[1:])
         for sel in selector_forms(dup_names):
@@ -134,6 +139,8 @@ def drawn_case(draw):
         c['prelude'] = draw(st.sampled_from(PRELUDES))
     elif c['proc'] in REGEX_PROCS and draw(st.booleans()):
         c['regex'] = False
+    elif draw(st.integers(0, 3)) == 0:
+        c['upstream_drop'] = True
     elif draw(st.integers(0, 3)) == 0:
         c['proc'] = draw(st.sampled_from(DUP_PROCS))
         c['prelude'] = 'duplicate'
@@ -413,12 +420,25 @@ def check(case, ctx):
         if case.get('regex') is False:
             classes.append('regex=False')
         sel_obj = copy.deepcopy(sel)
-        out_desc, out = run(build_prelude(pre) + [build_step(proc, sel_obj, capture, pre, case.get('regex', True), keep_object=True)],
-                            pkg, seq=seq_, scheduled=sched_)
+        run_pkg, drop = pkg, []
+        if case.get('upstream_drop') and len(names) >= 2 and not pre and not sched_:
+            # upstream of the step under test a resource in the MIDDLE of the package is deleted, and all resources are
+            # read from one stream: a step that asks for the next resource before it has passed the current one on makes
+            # the deleting step skip over rows that were not read yet
+            zz = {'name': 'zz-mid', 'fields': copy.deepcopy(FIELDS), 'rows': make_rows('zz-mid', 7), 'pk': ['id']}
+            run_pkg = pkg[:1] + [zz] + pkg[1:]
+            drop = [dataflows.delete_resource(['zz-mid'])]
+            seq_ = True
+            classes.append('behind-a-resource-deleted-in-the-middle')
+        out_desc, out = run(drop + build_prelude(pre) +
+                            [build_step(proc, sel_obj, capture, pre, case.get('regex', True), keep_object=True)],
+                            run_pkg, seq=seq_, scheduled=sched_)
         if sel_obj != sel:
             # the caller's selector object is the caller's: a list shared between several steps keeps its meaning
             raise Violation('%s:selector-argument-mutated' % proc, {'before': sel, 'after': sel_obj})
-        if pre:
+        if drop:
+            ref_desc, ref_rows = run([dataflows.delete_resource(['zz-mid'])], run_pkg, seq=True)
+        elif pre:
             # reference for "passes through unchanged": the same pipeline without the step under test
             ref_desc, ref_rows = run(build_prelude(pre), pkg)
         else:
@@ -474,4 +494,5 @@ def check(case, ctx):
                 raise Violation('%s:selected-resource-untouched' % proc, {'resource': names[i], 'selector': sel})
     if proc == 'printer' and capture != [names[i] for i in idxs]:
         raise Violation('printer:printed-resources', {'got': capture, 'expected': [names[i] for i in idxs]})
-    return Info(nontrivial=nontrivial, classes=classes, key=json.dumps([proc, sel, names, case.get('prelude'), case.get('regex'), bool(case.get('seq_iters'))]))
+    return Info(nontrivial=nontrivial, classes=classes, key=json.dumps([proc, sel, names, case.get('prelude'), case.get('regex'), bool(case.get('seq_iters')),
+                                bool(case.get('upstream_drop'))]))
